@@ -70,10 +70,10 @@ CLAIMED["C13"] = {
 CLAIMED["C05"] = {
     "text": "Fault step: the k-th seek or write fails, or the k-th write accepts only a prefix (k, prefix symbolic) => write_offset returns Err, never Ok with fewer bytes than the chunk on the output; bytes that did land are contiguous from the destination. All fault points inside the bound are covered by one query.",
     "design_ref": "DESIGN.md section 4 (C02/C13/C05)",
-    "note": "Reduced scope: only 'a run whose write failed or was cut short never reports success' -- at the write step, through feed (an error of the write loop is handed on: c13_feed_glue_*_fail, c13_feed_unit_*_faults); the in-place executor's one-operation fault scenario runs under C03 (c03_exec_min_faults); the 're-running completes' half is rescan+reorder+fetch and is not executable.",
+    "note": "Reduced scope: only 'a run whose write failed or was cut short never reports success' -- at the write step, through feed (an error of the write loop is handed on: c13_feed_glue_*_fail, c13_feed_unit_*_faults); the in-place executor's one-operation fault scenario runs under C03's thorough tier (c03_exec_min_faults); the 're-running completes' half is rescan+reorder+fetch and is not executable.",
     "technique": TECH}
 CLAIMED["C03"] = {
-    "text": "Two components of the in-place update, not the whole: (1) the overlap query the planner uses to find the chunks a move would overwrite is EXACT for every layout of 3 disjoint chunks and every destination range (full 2^40 offsets) -- no reusable chunk a move destroys can go unnoticed; (2) the executor reorder_in_place, run as a whole on one-operation plans (one move; one chunk to two destinations; a read or write fault at a symbolic call) over a file whose every byte is symbolic: every moved chunk's ORIGINAL bytes end at all of its destinations, nothing else is written, moved chunks leave the clone index, a failed read or write fails the run.",
+    "text": "Two components of the in-place update, not the whole: (1) the overlap query the planner uses to find the chunks a move would overwrite is EXACT for every layout of 3 disjoint chunks and every destination range (full 2^40 offsets) -- no reusable chunk a move destroys can go unnoticed; (2) the executor reorder_in_place, run as a whole on one-operation plans (one move; one chunk to two destinations; quick tier) and with a read or write fault at a symbolic call (thorough tier: 15 minutes) over a file whose every byte is symbolic: every moved chunk's ORIGINAL bytes end at all of its destinations, nothing else is written, moved chunks leave the clone index, a failed read or write fails the run.",
     "design_ref": "DESIGN.md section 4 (C03)",
     "note": "Reduced scope, stated plainly: the reorder PLANNER (reorder_ops/build_reorder_ops) and strip_chunks_already_in_place are NOT executed (std containers, sort, Vec::remove at symbolic positions do not get through CBMC); executor plans with two or more operations run out of memory (values that live in the coroutine are not constant-propagated), so the buffered-chunk path and cyclic multi-move plans are outside the claim. Planner scripted, write loop scripted (stores into a mock file), BTreeMap/HashMap models.",
     "technique": "bounded model checking of the real code (Kani -> CBMC -> SAT): step harness with a fully symbolic layout/query for the overlap lemma; scenario runs (concrete plan, symbolic file contents and fault points) for the executor"}
